@@ -176,7 +176,7 @@ def compare_program(ctx, c, coq_scripts, coq_sem, coq_enum, stats):
         if what is not None:
             ctx.violation(sig, dict(replay_base, script=p["script"], simulator_probability=p["prob"],
                                     simulator_states=p["states"], transcription=cq),
-                          f"script {p['script']} of\n{c['src']}  {what}")
+                          f"{what}\n  script {p['script']} of\n{c['src']}")
             return False
     # (b) no script missing / none extra
     if coq_enum[0] != len(c["paths"]) or Fraction(coq_enum[1], coq_enum[2]) != 1 or sum(p for p, _ in py_states) != 1:
@@ -221,6 +221,68 @@ def compare_program(ctx, c, coq_scripts, coq_sem, coq_enum, stats):
         if any(not evc(c["prog"]["guard"], dict(zip(c["vars"], states[n]))) for n in range(N)):
             stats["paths_with_frozen_suffix"] += 1
     return True
+
+
+def k_action(ctx, cases, stats):
+    """SimulationAction / SimulationResult: goals E(..), P(.. >= c), P(.. > c) averaged over two scripted samples
+    must be the average of the goal on the two end states (computed here on exact rationals)"""
+    tasks, meta = [], []
+    for c in cases:
+        if len(c["paths"]) < 2 or "b" in c["vars"] and False:
+            continue
+        x = c["vars"][0]
+        y = c["vars"][-1]
+        goals = [f"E({x})", f"E({x}**2)", f"E({x}*{y} + 1)", f"P({x} >= 1) <= ?", f"P({y} > 0) >= ?"]
+        if len(set(c["vars"])) == 1:
+            goals = goals[:2] + goals[3:]
+        p1, p2 = c["paths"][0], c["paths"][-1]
+        exp = []
+        for g in goals:
+            vals = []
+            for p in (p1, p2):
+                st = dict(zip(c["vars"], (Fraction(v) for v in p["states"][-1])))
+                if g.startswith(f"E({x})"):
+                    vals.append(st[x])
+                elif g.startswith(f"E({x}**2)"):
+                    vals.append(st[x] ** 2)
+                elif g.startswith("E("):
+                    vals.append(st[x] * st[y] + 1)
+                elif ">=" in g.split(")")[0]:
+                    vals.append(Fraction(1 if st[x] >= 1 else 0))
+                else:
+                    vals.append(Fraction(1 if st[y] > 0 else 0))
+            exp.append(sum(vals) / 2)
+        tasks.append({"kind": "sim_action", "src": c["src"], "N": c["N"], "scripts": [p1["script"], p2["script"]], "goals": goals,
+                      "timeout": 120})
+        meta.append((c, goals, exp, p1, p2))
+    res = lib.run_tasks(tasks, timeout=120) if tasks else []
+    st = {"runs": len(tasks), "agree": 0}
+    for (c, goals, exp, p1, p2), r in zip(meta, res):
+        ctx.coverage["obligations"] += 1
+        ctx.count({"action": c["src"], "s": [p1["script"], p2["script"]]})
+        what = None
+        if "lines" not in r:
+            what = f"SimulationAction failed: {r.get('etype')}: {str(r.get('msg'))[:200]}"
+        elif len(r["lines"]) != len(goals):
+            what = f"SimulationAction printed {len(r['lines'])} result lines for {len(goals)} goals: {r['lines']}"
+        else:
+            for g, e, line in zip(goals, exp, r["lines"]):
+                try:
+                    v = Fraction(float(line.split(" = ")[-1]))
+                except ValueError:
+                    v = None
+                if v != e:
+                    what = f"goal {g}: --simulate prints `{line}`, the average over the two scripted samples is {e}"
+                    break
+        if what is None:
+            st["agree"] += 1
+            ctx.coverage["discharged"] += 1
+        else:
+            ctx.violation("action:" + sig_of(c["src"]), {"program": c["src"], "iterations": c["N"], "goals": goals,
+                                                         "scripts": [p1["script"], p2["script"]], "printed": r.get("lines"),
+                                                         "expected": [str(e) for e in exp]},
+                          f"{what}\n  scripts {p1['script']} and {p2['script']} (number_samples=2) of\n{c['src']}")
+    stats["simulation_action"] = st
 
 
 def k_simulator(ctx):
@@ -316,6 +378,7 @@ def k_simulator(ctx):
                                 "states": c["paths"][-1]["states"], "result": "every script and the law at every n agree"})
     stats["programs_agreeing"] = agreed
     stats["statement_kinds"] = dict(sorted(kinds.items()))
+    k_action(ctx, [cases[i] for i in done], stats)
     ctx.coverage["simulator_correspondence"] = stats
 
 
@@ -526,6 +589,15 @@ def interval_in_support(lo, hi, items):
     return False
 
 
+def same_number(recorded, exact):
+    """a float the code computed against the exact rational the descriptor denotes: equal as rationals,
+    or (non-dyadic results of a division / square root) equal up to 1e-12 relative"""
+    if recorded is None or exact is None:
+        return recorded is None and exact is None
+    recorded, exact = Fraction(recorded), Fraction(exact)
+    return recorded == exact or abs(recorded - exact) <= Fraction(1, 10 ** 12) * max(1, abs(exact))
+
+
 def k_samplers(ctx, desc):
     cases = sampler_cases(ctx)
     tcases = [{"dist": d, "params": [str(p) for p in ps]} for d, ps in cases]
@@ -575,13 +647,15 @@ def k_samplers(ctx, desc):
                     ok_desc = False
                 else:
                     got_kw = {k: Fraction(v) for k, v in call.get("kwargs", {}).items()}
-                    ok_desc = (call["family"] == expected["family"]
-                               and [Fraction(a) for a in call.get("args", [])] == expected["args"]
-                               and got_kw.get("loc") == expected["loc"] and got_kw.get("scale") == expected["scale"]
+                    got_args = [Fraction(a) for a in call.get("args", [])]
+                    ok_desc = (call["family"] == expected["family"] and len(got_args) == len(expected["args"])
+                               and all(same_number(g, e) for g, e in zip(got_args, expected["args"]))
+                               and same_number(got_kw.get("loc"), expected["loc"])
+                               and same_number(got_kw.get("scale"), expected["scale"])
                                and set(got_kw) <= {"loc", "scale"})
                     post = expected["post"] if expected["post"] is not None else Fraction(1)
                     try:
-                        ok_desc = ok_desc and Fraction(r["returned"]) == post * Fraction(1, 2)
+                        ok_desc = ok_desc and same_number(Fraction(r["returned"]), post * Fraction(1, 2))
                     except Exception:
                         ok_desc = False
             elif dsc[0] == "choices_range":
@@ -603,13 +677,20 @@ def k_samplers(ctx, desc):
         # -- 2./3. what the recorded call means (std table) vs get_moment / get_support -----
         call = calls[0] if calls else None
         if call is not None and call["family"] in translate_sim_scipy():
-            shape = [Fraction(a) for a in call.get("args", [])]
-            kw = {k: Fraction(v) for k, v in call.get("kwargs", {}).items()}
-            loc, scale = kw.get("loc", Fraction(0)), kw.get("scale", Fraction(1))
-            try:
-                post = Fraction(r["returned"]) / Fraction(1, 2)
-            except Exception:
-                post = Fraction(1)
+            if ok_desc and expected is not None:
+                # the call agrees with the descriptor: use the exact values the descriptor denotes
+                shape = expected["args"]
+                loc = expected["loc"] if expected["loc"] is not None else Fraction(0)
+                scale = expected["scale"] if expected["scale"] is not None else Fraction(1)
+                post = expected["post"] if expected["post"] is not None else Fraction(1)
+            else:
+                shape = [Fraction(a) for a in call.get("args", [])]
+                kw = {k: Fraction(v) for k, v in call.get("kwargs", {}).items()}
+                loc, scale = kw.get("loc", Fraction(0)), kw.get("scale", Fraction(1))
+                try:
+                    post = Fraction(r["returned"]) / Fraction(1, 2)
+                except Exception:
+                    post = Fraction(1)
             mv, (lo, hi) = std_table(call["family"], shape)
             s_lo = None if lo is None else post * (loc + scale * lo)
             s_hi = None if hi is None else post * (loc + scale * hi)
